@@ -133,7 +133,10 @@ pub fn type_to_name(fragment: &yaml::Yaml) -> String {
         yaml::Yaml::Integer(_) => "Integer".into(),
         yaml::Yaml::String(_) => "String".into(),
         yaml::Yaml::Boolean(_) => "Boolean".into(),
-        yaml::Yaml::Array(a) => format!("Array of {}", type_to_name(&a[0])),
+        yaml::Yaml::Array(a) => match a.first() {
+            Some(first) => format!("Array of {}", type_to_name(first)),
+            None => "empty Array".into(),
+        },
         yaml::Yaml::Hash(_) => "Hash".into(),
         yaml::Yaml::Alias(_) => "Alias".into(),
         yaml::Yaml::Null => "Null".into(),
